@@ -343,7 +343,6 @@ def props_claim(E, res):
         else:
             P.append(('burn parameters present', False))
     P.append(('tokens burnt = total size of the removed allocations', burnt == total * 10**18))
-    P.append(('at most one burn', len(rt.sends) <= 1))
     return P
 
 
